@@ -46,7 +46,18 @@
 //	agstop   Agent.Stop; bounded wait                                              obs  hc=<gone|parked|spinning> usage=<gone|idle|pending|sent>
 //	(after agstop the three environment ops answer  loc=<gone|…>)
 //
-// every obs but gor/agent/ag*/panic ends with  h=<sid[!p|!b],…|-> u=<d<dest>:<sid.sid…>,…|->
+// retry cases (header kind=retry mb=<MaxBatchSize> r=<Retry-After s, 1..59> code=<429|503> lim=<one 0|1 per
+// destination: rate limited> nd=<n>): a real DirectTransmission (fake clock, BatchTimeout 1000 h so that only the
+// batch size and Stop dispatch) in front of a scripted upstream: a limited destination refuses from the first
+// attempt it sees (fake time t) until t+r with <code> + Retry-After = time left, and accepts from then on.
+//
+//	rev <sid> <dest>   EnqueueEvent                      obs  <ok|panic|blocked> u=<batches delivered> sl=<batches asleep> early=<n> rej=<n>
+//	radv <s>           the fake clock advances s seconds (same)
+//	rstop              DirectTransmission.Stop while a second goroutine keeps advancing the fake clock (1 s steps,
+//	                   at most 600) until Stop returns        (same; early = retries that arrived before the announced
+//	                   instant, rej = batches refused a second time)
+//
+// every obs but gor/agent/ag*/r*/panic ends with  h=<sid[!p|!b],…|-> u=<d<dest>:<sid.sid…>,…|->
 // (handed to the transmission in this op, in order; batches the fake Honeycomb received, sorted).
 package main
 
@@ -454,6 +465,7 @@ type comp struct {
 	seed  uint64
 	fresh bool
 	agent bool
+	kind  string
 }
 
 func (c *comp) newHistory(r *kit.Rng, maxLen int) {
@@ -539,9 +551,49 @@ func (c *comp) newAgentHistory(r *kit.Rng) {
 	c.agent = true
 }
 
+// newRetryHistory: a rate-limited upstream; events are enqueued and the clock advances (often to just
+// before / onto / just past the end of the Retry-After interval); Stop is requested at every prefix.
+func (c *comp) newRetryHistory(r *kit.Rng) {
+	mb := 1 + r.Intn(3)
+	ra := []int{1, 2, 5, 30, 59}[r.Intn(5)]
+	code := []int{429, 503}[r.Intn(2)]
+	nd := 1 + r.Intn(2)
+	lim := make([]byte, nd)
+	for i := range lim {
+		lim[i] = '0'
+		if i == 0 || r.Chance(50) {
+			lim[i] = '1'
+		}
+	}
+	c.hdr = fmt.Sprintf("kind=retry mb=%d r=%d code=%d lim=%s nd=%d", mb, ra, code, lim, nd)
+	var ops []string
+	m := 2 + r.Intn(7)
+	sid := 0
+	for len(ops) < m {
+		if r.Chance(65) {
+			sid++
+			ops = append(ops, fmt.Sprintf("rev %d %d", sid, r.Intn(nd)))
+		} else {
+			adv := []int{1, ra - 1, ra, ra + 1, 2}[r.Intn(5)]
+			if adv < 1 {
+				adv = 1
+			}
+			ops = append(ops, fmt.Sprintf("radv %d", adv))
+		}
+	}
+	c.hist = ops
+	c.next = 1
+	c.seed = r.Next()
+	c.kind = "retry"
+}
+
 func (c *comp) Gen(r *kit.Rng, maxLen int, tier string) kit.Case {
 	if c.hist == nil || c.next > len(c.hist) {
-		if r.Chance(50) {
+		c.kind = ""
+		if x := r.Intn(100); x < 20 {
+			c.agent = false
+			c.newRetryHistory(r)
+		} else if x < 60 {
 			c.newAgentHistory(r)
 		} else {
 			c.agent = false
@@ -552,6 +604,13 @@ func (c *comp) Gen(r *kit.Rng, maxLen int, tier string) kit.Case {
 	c.next++
 	tr := kit.NewRng(c.seed + uint64(k)*0x9e37)
 	ops := append([]string{}, c.hist[:k]...)
+	if c.kind == "retry" {
+		ops = append(ops, "rstop")
+		if tr.Chance(25) {
+			ops = append(ops, fmt.Sprintf("rev %d 0", 900+k), "radv 3", fmt.Sprintf("rev %d 0", 950+k))
+		}
+		return kit.Case{Header: c.hdr, Ops: ops}
+	}
 	if c.agent {
 		ops = append(ops, "agstop")
 		if tr.Chance(20) {
@@ -626,6 +685,9 @@ type runner struct {
 func (c *comp) NewCase(h []string) kit.Runner {
 	if kit.KV(h, "kind") == "agent" {
 		return &agentRunner{script: kit.KV(h, "script")}
+	}
+	if kit.KV(h, "kind") == "retry" {
+		return newRetryRunner(h)
 	}
 	atoi := func(k string, d int64) int64 {
 		v, err := strconv.ParseInt(kit.KV(h, k), 10, 64)
@@ -1226,6 +1288,216 @@ func (r *runner) stopAux() {
 	r.sf.Stop()
 	r.ps.Stop()
 	r.ptx.Stop()
+}
+
+// ---------------------------------------------------------------------------- Retry-After histories
+
+// rlUpstream is the scripted, rate-limited upstream.
+type rlUpstream struct {
+	mu          sync.Mutex
+	clock       *clockwork.FakeClock
+	r           time.Duration
+	code        int
+	lim         map[string]bool
+	acceptAt    map[string]time.Time // destination -> instant from which it accepts
+	outstanding map[string]time.Time // batch refused once -> the instant announced to it
+	batches     []string             // delivered since the last observation
+	firstSeen   int                  // events seen in first attempts
+	early, rej  int
+}
+
+func (u *rlUpstream) ServeHTTP(w http.ResponseWriter, req *http.Request) {
+	body, _ := io.ReadAll(req.Body)
+	ids, _ := decodeIDs(body)
+	ds := strings.TrimPrefix(req.URL.Path, "/1/batch/")
+	parts := make([]string, len(ids))
+	for i, id := range ids {
+		parts[i] = strconv.FormatInt(id, 10)
+	}
+	key := ds + ":" + strings.Join(parts, ".")
+	u.mu.Lock()
+	now := u.clock.Now()
+	_, isRetry := u.outstanding[key]
+	if !isRetry {
+		u.firstSeen += len(ids)
+	}
+	if u.lim[ds] {
+		aa, have := u.acceptAt[ds]
+		if !have {
+			aa = now.Add(u.r)
+			u.acceptAt[ds] = aa
+		}
+		if now.Before(aa) {
+			if isRetry {
+				u.early++
+				u.rej++
+				delete(u.outstanding, key)
+			} else {
+				u.outstanding[key] = aa
+			}
+			left := int((aa.Sub(now) + time.Second - 1) / time.Second)
+			u.mu.Unlock()
+			w.Header().Set("Retry-After", strconv.Itoa(left))
+			w.WriteHeader(u.code)
+			return
+		}
+	}
+	delete(u.outstanding, key)
+	u.batches = append(u.batches, key)
+	u.mu.Unlock()
+	w.Header().Set("Content-Type", "application/json")
+	resp := make([]string, len(ids))
+	for i := range resp {
+		resp[i] = `{"status":202}`
+	}
+	fmt.Fprintf(w, "[%s]", strings.Join(resp, ","))
+}
+
+// due: batches whose announced instant has come and that have not retried yet; asleep: all that have not.
+func (u *rlUpstream) counts() (due, asleep, firstSeen int) {
+	u.mu.Lock()
+	defer u.mu.Unlock()
+	now := u.clock.Now()
+	for _, t := range u.outstanding {
+		if !now.Before(t) {
+			due++
+		}
+	}
+	return due, len(u.outstanding), u.firstSeen
+}
+
+func (u *rlUpstream) take() string {
+	u.mu.Lock()
+	defer u.mu.Unlock()
+	b := u.batches
+	u.batches = nil
+	sort.Strings(b)
+	s := fmt.Sprintf("u=%s sl=%d early=%d rej=%d", list(b), len(u.outstanding), u.early, u.rej)
+	u.early, u.rej = 0, 0
+	return s
+}
+
+type retryRunner struct {
+	conf  *config.MockConfig
+	clock *clockwork.FakeClock
+	up    *rlUpstream
+	srv   *httptest.Server
+	tr    *http.Transport
+	dt    *transmit.DirectTransmission
+	tx    *recTx
+}
+
+func newRetryRunner(h []string) *retryRunner {
+	atoi := func(k string, d int) int {
+		v, err := strconv.Atoi(kit.KV(h, k))
+		if err != nil {
+			return d
+		}
+		return v
+	}
+	r := &retryRunner{conf: &config.MockConfig{}, clock: clockwork.NewFakeClock()}
+	r.up = &rlUpstream{clock: r.clock, r: time.Duration(atoi("r", 1)) * time.Second, code: atoi("code", 429),
+		lim: map[string]bool{}, acceptAt: map[string]time.Time{}, outstanding: map[string]time.Time{}}
+	for i, b := range kit.KV(h, "lim") {
+		if b == '1' {
+			r.up.lim[fmt.Sprintf("d%d", i)] = true
+		}
+	}
+	r.srv = httptest.NewServer(r.up)
+	r.tr = &http.Transport{}
+	met := &metrics.MockMetrics{}
+	met.Start()
+	r.dt = transmit.NewDirectTransmission(types.TransmitTypeUpstream, r.tr, atoi("mb", 1), 1000*time.Hour, 10*time.Second, false, nil)
+	r.dt.Config = r.conf
+	r.dt.Logger = &logger.NullLogger{}
+	r.dt.Metrics = met
+	r.dt.Version = "verif"
+	r.dt.Clock = r.clock
+	if err := r.dt.Start(); err != nil {
+		panic(err)
+	}
+	blockUntil(r.clock, 2)
+	r.tx = &recTx{real: r.dt}
+	return r
+}
+
+// settle: every dispatched batch has made its first attempt, every batch whose Retry-After is over
+// has retried, and every refused batch is asleep on the fake clock.
+func (r *retryRunner) settle() {
+	if r.tx.stopped {
+		return
+	}
+	waitFor("dispatched batches to reach the upstream", func() bool {
+		pend := transmit.VerifShutdownPending(r.dt)
+		if pend < 0 {
+			return false
+		}
+		r.tx.mu.Lock()
+		ok := r.tx.ok
+		r.tx.mu.Unlock()
+		due, _, first := r.up.counts()
+		return due == 0 && first == ok-pend
+	})
+	_, asleep, _ := r.up.counts()
+	blockUntil(r.clock, 2+asleep)
+}
+
+func (r *retryRunner) Do(op []string) (string, bool) {
+	switch op[0] {
+	case "rev":
+		sid, _ := strconv.Atoi(op[1])
+		dest, _ := strconv.Atoi(op[2])
+		ev := &types.Event{Context: context.Background(), APIHost: r.srv.URL, APIKey: "key0123456789abcdefghij",
+			Dataset: fmt.Sprintf("d%d", dest), SampleRate: 1, Timestamp: time.Unix(1700000000, 0),
+			Data: types.NewPayload(r.conf, map[string]any{"id": int64(sid)})}
+		out := r.tx.enqueue(ev)
+		r.settle()
+		return map[string]string{"": "ok", "p": "panic", "b": "blocked"}[out] + " " + r.up.take(), true
+	case "radv":
+		n, _ := strconv.Atoi(op[1])
+		r.clock.Advance(time.Duration(n) * time.Second)
+		r.settle()
+		return "ok " + r.up.take(), true
+	case "rstop":
+		r.stop()
+		return "ok " + r.up.take(), true
+	}
+	return "bad-op", true
+}
+
+// stop runs the exported Stop; the fake clock keeps running while it blocks.
+func (r *retryRunner) stop() {
+	done := make(chan struct{})
+	go func() {
+		defer close(done)
+		r.tx.call.Lock()
+		defer r.tx.call.Unlock()
+		r.dt.Stop()
+		r.tx.stopped = true
+	}()
+	for i := 0; i < 600; i++ {
+		select {
+		case <-done:
+			return
+		default:
+		}
+		r.clock.Advance(time.Second)
+		time.Sleep(200 * time.Microsecond)
+	}
+	select {
+	case <-done:
+	case <-time.After(stuck):
+		panic("stuck waiting for DirectTransmission.Stop")
+	}
+}
+
+func (r *retryRunner) Close() {
+	defer func() { recover() }()
+	if !r.tx.stopped {
+		r.stop()
+	}
+	r.tr.CloseIdleConnections()
+	r.srv.Close()
 }
 
 // ---------------------------------------------------------------------------- agent histories
